@@ -66,6 +66,8 @@ def run(rep, tier, seed):
         if not numpy.allclose(got, exp, rtol=1e-10, atol=1e-9):
             rep.violation(sig, dict(detail, got=got.tolist(), expected=exp.tolist()))
 
+    cnt = [0]
+
     def run_case(f, N, pt, v, jac, hess, tensors, tag, dtypes=(float, int)):
         for dt in dtypes:
             x = numpy.array(pt, dtype=dt)
@@ -85,6 +87,23 @@ def run(rep, tier, seed):
                     check("tensor d=%d" % dd, got, [tens[m] for m in mi], d)
                     if dd == 2:
                         check("tensor d=2 full matrix", UTPM.extract_tensor(N, f(UTPM.init_tensor(2, x))), hess, d)
+                cnt[0] += 1
+                if dt is int and cnt[0] % 6 == 0:
+                    # an integer-typed point with a non-integer direction / a non-polynomial function must not truncate anything
+                    vh = numpy.array(v, dtype=float) / 2
+                    check("jac_vec (int point, fractional direction)", UTPM.extract_jac_vec(f(UTPM.init_jac_vec(x, vh))), numpy.dot(jac, vh), d)
+                    check("hess_vec (int point, fractional direction)", UTPM.extract_hess_vec(N, f(UTPM.init_hess_vec(x, vh))), numpy.dot(hess, vh), d)
+                    g = lambda z: algopy.exp(0.125 * f(z))
+                    xf = x.astype(float)
+                    for nm, call in (("jacobian", lambda xx: UTPM.extract_jacobian(g(UTPM.init_jacobian(xx)))),
+                                     ("hessian", lambda xx: UTPM.extract_hessian(N, g(UTPM.init_hessian(xx)))),
+                                     ("tensor d=2", lambda xx: UTPM.extract_tensor(N, g(UTPM.init_tensor(2, xx)), as_full_matrix=False))):
+                        try:
+                            a_, b_ = numpy.asarray(call(x), dtype=float), numpy.asarray(call(xf), dtype=float)
+                        except Exception as ex:
+                            rep.violation("%s of a smooth function at an integer-typed point raises %s" % (nm, type(ex).__name__), dict(d, what=repr(ex)[-200:])); continue
+                        if a_.shape != b_.shape or not numpy.allclose(a_, b_, rtol=1e-10, atol=1e-12):
+                            rep.violation("%s of a smooth function: integer-typed point differs from the same point as float" % nm, dict(d, got=a_.tolist(), expected=b_.tolist()))
             except Exception as ex:
                 rep.violation("forward driver raises " + type(ex).__name__, dict(d, what=repr(ex)[-300:]))
 
